@@ -54,7 +54,7 @@ type cbRec struct {
 
 func TestC17_ReadAndWriteInFlight(t *testing.T) {
 	rec := evid.For("C17")
-	rec.SetRule("rapid schedules on a real handshake against a raw harness server over the real AsyncAdapter: peer sends data messages (1-2 fragments), pings, optionally a close; the application starts AsyncNextFrame/AsyncNextMessage (one read outstanding), AsyncWrite/AsyncWriteFrame/AsyncFlush (up to three application writes outstanding), AsyncClose, in generated positions relative to PollOne calls, and completion callbacks that themselves re-arm the read and/or start the next write (echo-style, generated per callback), in particular an application write issued while the read path's automatic Pong flush has not completed; peer drains; the session ends (epilogue, with a read and/or a write in flight) with nothing, AsyncClose followed by the peer's reply, the peer's Close followed by AsyncFlush (plus a late AsyncWrite that must be refused), or a message larger than the buffer handed to AsyncNextMessage arriving while an application write is in flight; oracle: exactly one Close on the wire and nothing after it, every user callback is invoked exactly once (after everything was made completable and readiness confirmed, within 40 PollOne calls), reads deliver the peer's frames/messages in order, the server-side byte stream parses completely into the expected frames in submission order (pongs echo their ping), IO.Pending() returns to 0 when nothing is outstanding; non-trivial = an application write issued while a control-reply flush was in flight, or a read and a write callback in the same PollOne; distinct = hash of the schedule")
+	rec.SetRule("rapid schedules on a real handshake against a raw harness server over the real AsyncAdapter (in a quarter of the cases preceded by a session on the same stream that is torn down with 1..3 writes and possibly a read in flight, then re-handshaken): peer sends data messages (1-2 fragments), pings, optionally a close; the application starts AsyncNextFrame/AsyncNextMessage (one read outstanding), AsyncWrite/AsyncWriteFrame/AsyncFlush (up to three application writes outstanding), AsyncClose, in generated positions relative to PollOne calls, and completion callbacks that themselves re-arm the read and/or start the next write (echo-style, generated per callback), in particular an application write issued while the read path's automatic Pong flush has not completed; peer drains; the session ends (epilogue, with a read and/or a write in flight) with nothing, AsyncClose followed by the peer's reply, the peer's Close followed by AsyncFlush (plus a late AsyncWrite that must be refused), or a message larger than the buffer handed to AsyncNextMessage arriving while an application write is in flight; oracle: exactly one Close on the wire and nothing after it, every user callback is invoked exactly once (after everything was made completable and readiness confirmed, within 40 PollOne calls), reads deliver the peer's frames/messages in order, the server-side byte stream parses completely into the expected frames in submission order (pongs echo their ping), IO.Pending() returns to 0 when nothing is outstanding; non-trivial = an application write issued while a control-reply flush was in flight, or a read and a write callback in the same PollOne; distinct = hash of the schedule")
 	rec.Assume("messages <= 2 KiB so that the adapter's blocking net.Conn.Write always fits the socket buffer; one read outstanding at a time, up to three application writes (they queue behind whatever flush is in flight; the automatic control replies of the read path are the overlap under test)")
 	overlapKnown := known.Listed("C17", "overlapping-flush-drops-continuation")
 	vt.CheckSteps(t, 200, 25, func(rt *rapid.T) {
@@ -72,14 +72,41 @@ func TestC17_ReadAndWriteInFlight(t *testing.T) {
 		if err != nil {
 			rt.Fatal(err)
 		}
-		ch := make(chan int, 1)
-		go rawUpgrade(ln, ch)
-		if err := s.Handshake("ws://" + ln.Addr() + "/"); err != nil {
-			rt.Fatalf("INFRA: handshake: %v", err)
+		connect := func() int {
+			ch := make(chan int, 1)
+			go rawUpgrade(ln, ch)
+			if err := s.Handshake("ws://" + ln.Addr() + "/"); err != nil {
+				rt.Fatalf("INFRA: handshake: %v", err)
+			}
+			srv := <-ch
+			if srv < 0 {
+				rt.Fatalf("INFRA: server side of the handshake failed")
+			}
+			return srv
 		}
-		srv := <-ch
-		if srv < 0 {
-			rt.Fatalf("INFRA: server side of the handshake failed")
+		srv := connect()
+		reconnected := false
+		if rapid.IntRange(0, 3).Draw(rt, "reconnectFirst") == 0 {
+			// an earlier session on the same stream object is torn down with operations in flight (what a watchdog on a
+			// stalled peer does); the session under test is the one after the re-handshake and must behave like a fresh one
+			nw := rapid.IntRange(1, 3).Draw(rt, "abandonedWrites")
+			for i := 0; i < nw; i++ {
+				s.AsyncWrite([]byte{byte(i), 0xAB}, websocket.TypeBinary, func(error) {})
+			}
+			if rapid.Bool().Draw(rt, "abandonedRead") {
+				s.AsyncNextFrame(func(error, websocket.Frame) {})
+			}
+			if rapid.Bool().Draw(rt, "pollBeforeTeardown") {
+				_, _ = ioc.PollOne()
+			}
+			_ = s.CloseNextLayer()
+			sysx.NoLinger(srv)
+			_ = syscall.Close(srv)
+			for i := 0; i < 3; i++ {
+				_, _ = ioc.PollOne()
+			}
+			srv = connect()
+			reconnected = true
 		}
 		sysx.NoLinger(srv) // closing sends an RST: no TIME_WAIT sockets pile up over thousands of cases
 		defer syscall.Close(srv)
@@ -659,6 +686,9 @@ func TestC17_ReadAndWriteInFlight(t *testing.T) {
 		}
 		if ending != "none" {
 			cls = append(cls, "ending-"+ending)
+		}
+		if reconnected {
+			cls = append(cls, "session-after-a-torn-down-one")
 		}
 		rec.Case(strings.Join(trace, ","), overlapWrite || sameCycle, cls, map[string]any{"schedule": trace})
 	})
